@@ -332,7 +332,8 @@ def install(lib, np_):
   def _zeros(cx, shape, dtype=None, **kw):
     dims = shape_arg(cx, shape)
     k = lib.dtype_kind(dtype) if dtype is not None else 'f'
-    return cx.new(TH.zeros(dims[0]) if len(dims) == 1 else None, dims, k or 'f')
+    t_ = TH.zeros(dims[0]) if len(dims) == 1 else TH.zeros2(dims[0], dims[1]) if len(dims) == 2 else None
+    return cx.new(t_, dims, k or 'f')
 
   @ext('numpy.ones')
   def _ones(cx, shape, dtype=None, **kw):
@@ -401,6 +402,10 @@ def install(lib, np_):
     cx.may_raise('LinAlgError', None, 'eigenvalue computation did not converge')
     w = cx.new(TH.eigvals(st.term) if st.term is not None else None, [n], 'f')
     V = cx.new(TH.eigvecs(st.term) if st.term is not None else None, [n, n], 'f')
+    if st.term is not None:
+      # ASSUMED (eigh on the symmetric matrix it is given + linear algebra): positive definite iff no eigenvalue is <= 0
+      cx.p.assume(TH.pd(st.term) == z3.Not(TH.anyT(TH.cmps('le')(TH.eigvals(st.term), z3.RealVal(0)))))
+      cx.p.assume(TH.lenT(TH.eigvals(st.term)) == n)
     return VTuple([w, V])
 
   @ext(['numpy.linalg.eigh'], 'ASSUMED: (w, V) with a = V diag(w) V^T, V orthogonal, w ascending, for symmetric a')
